@@ -245,6 +245,23 @@ theorem geo_blocks (w : Nat) (hw : 2 ≤ w) (p : List Nat) (hp : 1 ≤ p.length)
     · rw [if_neg h]; exact hrows L (by omega)
 
 open RbV.Model.MyersLong in
+/-- the number of blocks is `⌈m / w⌉` (`LongStatesHandler::init`: `ceil_div(m, w)`; the driver sizes the old contents of
+the states vector with this expression) -/
+theorem blocksOf_length (w : Nat) (hw : 2 ≤ w) (p : List Nat) (hp : 1 ≤ p.length) :
+    (blocksOf w p).length = (p.length + w - 1) / w := by
+  obtain ⟨g, _, _⟩ := geo_blocks w hw p hp
+  have h1 := g.lo
+  have h2 := g.hi
+  have h3 := g.hnb
+  obtain ⟨n, hn⟩ : ∃ n, (blocksOf w p).length = n + 1 := ⟨(blocksOf w p).length - 1, by omega⟩
+  rw [hn] at h1 h2 ⊢
+  simp only [Nat.add_sub_cancel] at h1 h2
+  symm
+  apply Nat.div_eq_of_lt_le
+  · rw [Nat.succ_mul]; omega
+  · rw [Nat.succ_mul, Nat.succ_mul]; omega
+
+open RbV.Model.MyersLong in
 /-- block `B` of an encoded column -/
 theorem ColEnc_get {w : Nat} {C : Nat → Int} : ∀ (blks : List (List Nat)) (sts : List (St w)) (r0 : Nat),
     ColEnc C r0 blks sts → ∀ B, B < sts.length → ∃ blk, blks[B]? = some blk ∧
